@@ -45,10 +45,11 @@ def gen_length(rng: random.Random, big: bool = True) -> int:
         return 1
     if kind == "small":
         return rng.randint(2, 600)
+    top = (rng.choice([3, 3, 3, 6, 9]) if big else 2)
     if kind == "fill":
-        k = rng.randint(1, 3 if big else 2)
+        k = rng.randint(1, top)
         return max(0, exact_fill_words(k) + rng.choice([-2, -1, 0, 0, 0, 1, 2]))
-    return rng.randint(1, (3 if big else 2) * A.SECTOR // 2)
+    return rng.randint(1, top * A.SECTOR // 2)
 
 
 def gen_sample(rng: random.Random, name: str, key: str, *, n: Optional[int] = None, markers: bool = True,
@@ -57,7 +58,7 @@ def gen_sample(rng: random.Random, name: str, key: str, *, n: Optional[int] = No
     typ = rng.choice([1, 3])
     f = {"kind": "sample", "name": name, "ftype": 0xF3 if rng.random() < 0.6 else 0x73, "key": key, "n": n, "typ": typ,
          "policy": rng.choice(A.POLICIES), "seed": rng.getrandbits(30),
-         "rate": weighted(rng, [(44100, 4), (22050, 2), (0, 1), (rng.randint(1, 65535), 2)])}
+         "rate": weighted(rng, [(44100, 4), (22050, 2), (0, 1), (rng.randint(1, 65535), 2), (rng.choice([1, 2, 65535, 32768, 256]), 1)])}
     if markers and n > 0 and rng.random() < 0.45:
         s = rng.randint(0, n)
         e = rng.randint(s, n)
@@ -104,7 +105,7 @@ def gen_program(rng: random.Random, name: str, sample_names: List[str]) -> dict:
 
 def gen_model(rng: random.Random, *, max_parts: int = 3, max_vols: int = 4, max_files: int = 8, pairs: bool = True,
               programs: bool = True, markers: bool = True, rich_header: bool = True, min_files: int = 0,
-              allow_empty_window: bool = False, big: bool = True) -> dict:
+              allow_empty_window: bool = False, big: bool = True, many_files: float = 0.0) -> dict:
     nparts = weighted(rng, [(1, 6), (2, 3), (3, 1)]) if max_parts >= 3 else rng.randint(1, max_parts)
     parts = []
     keyc = [0]
@@ -120,6 +121,11 @@ def gen_model(rng: random.Random, *, max_parts: int = 3, max_vols: int = 4, max_
             used: set = set()
             files = []
             nf = rng.randint(min_files, max_files)
+            if many_files and rng.random() < many_files:
+                # a directory that needs more than one sector (>340 entries of 24 bytes)
+                for _ in range(rng.randint(341, 352)):
+                    files.append(gen_sample(rng, safe_name(rng, used), key(), n=rng.randint(0, 40), markers=False, rich_header=False))
+                nf = len(files)
             while len(files) < nf:
                 if pairs and nf - len(files) >= 2 and rng.random() < 0.25:
                     stem = safe_name(rng, used, 8)
